@@ -7,8 +7,9 @@ need no quoting for tokenisation).  Oracle: every reference argument that carrie
 string/path element (vlib/ref/argv.value_args: the element itself, or the argument its
 argstr/separator builds around it) is present in the executed argv -- observed (a) at
 `pydra.environments.base.execute` and (b), for a sample, by a really spawned process that prints
-its argv.  Deviations are attributed with the defect model "the built string is tokenised again
-with shlex" (vlib/ref/argv.model with RETOK); everything else keeps its own signature.
+its argv.  Deviations are attributed with the defect models "the built string is tokenised again
+with shlex" (vlib/ref/argv.model with RETOK) and "the string formatted from a template is
+str.strip()ped" (TPLSTRIP); everything else keeps its own signature.
 """
 from __future__ import annotations
 
@@ -28,8 +29,10 @@ RULE = (
     "cases = (definition of 1-3 unpositioned fields of type str/File/list[str]/MultiInputObj[str] "
     "(+ optional int/bool filler) with argstr plain/empty/templated/'...' and separators, value "
     "assignment and append_args from the hostile alphabet [word chars, space, tab, ' \" \\ $ * ; & "
-    "| < > ( ), unicode] (half of the budget) or the safe alphabet [word chars, $*;&|<>()~#=,:%@!?^- "
-    "and unicode, no blanks/quotes/backslash] (other half); 1 in 6 cases additionally spawns a "
+    "| < > ( ), unicode letters, NO-BREAK SPACE, IDEOGRAPHIC SPACE, form feed] (half of the budget) "
+    "or the safe alphabet [word chars, $*;&|<>()~#=,:%@!?^-, unicode letters and the whitespace "
+    "characters that are not POSIX blanks: U+00A0 U+3000 U+2003 U+2028 U+0085 VT FF US; no "
+    "blank/tab/quotes/backslash, i.e. nothing POSIX tokenisation touches] (other half); 1 in 6 cases additionally spawns a "
     "real process that echoes its argv). Non-trivial = some supplied string contains a non-word "
     "character and reaches the command line; distinct = canonical case."
 )
@@ -37,7 +40,9 @@ ASSUMPTIONS = [
     "empty strings are not generated (the statement does not say whether '' is a set value)",
     "braces and square brackets are not in the alphabets (argstr templates give them a meaning; "
     "C25 covers templates)",
-    "strings contain no NUL, no newline and, for file names, no '/'",
+    "strings contain no NUL, no newline/carriage return and, for file names, no '/'",
+    "non-POSIX whitespace (what str.split/str.strip/\\s treat as blank but sh and shlex do not) is "
+    "an ordinary character for the statement: an argument holding it is one argument",
     "the separator may follow an element of a '...' list inside its argument (C22's separator "
     "finding): the value is still verbatim inside the argument, so C23 accepts it",
     "the real-process variant uses [/bin/sh, script] as a list executable, which bypasses "
@@ -45,6 +50,8 @@ ASSUMPTIONS = [
 ]
 SHARDS = {"quick": 16, "thorough": 16}
 SIG_RETOK = "value-retokenised-by-shlex"
+SIG_TPLSTRIP = "value-in-template-stripped-of-non-posix-whitespace"
+SIG = {R.RETOK: SIG_RETOK, R.TPLSTRIP: SIG_TPLSTRIP}  # the defect models that alter values
 STR_TYPES = ("str", "file", "list[str]", "multi[str]")
 
 
@@ -127,9 +134,10 @@ def check_case(case):
             if r is not None:
                 s = R.explain(spec, rv, app, r)
                 if s is not None and R.RETOK in s:
-                    return [dict(signature=SIG_RETOK, observed=short(e),
+                    return [dict(signature=SIG[x], observed=short(e),
                                  expected=[a for _, a, _ in required],
-                                 detail="raises exactly where the re-tokenisation model raises")]
+                                 detail="raises exactly where the re-tokenisation model raises "
+                                        f"({'+'.join(s)})") for x in s if x in SIG]
             return [dict(signature=exception_signature(e, f"{stage}-raises"), observed=short(e),
                          expected=[a for _, a, _ in required])]
         recs = []
@@ -146,14 +154,14 @@ def check_case(case):
             if not miss:
                 continue
             s = R.explain(spec, rv, app, got)
-            if s is not None and R.RETOK in s:
-                sig = SIG_RETOK
+            if s is not None and any(x in SIG for x in s):
+                sigs = [SIG[x] for x in s if x in SIG]
                 detail = f"{where} argv equals the defect model {'+'.join(s)}"
             else:
-                sig = f"value-not-intact:{where}"
+                sigs = [f"value-not-intact:{where}"]
                 detail = f"no defect model reproduces the {where} argv"
-            recs.append(dict(signature=sig, observed=got, expected=dict(missing=miss),
-                             detail=detail))
+            recs += [dict(signature=sig, observed=got, expected=dict(missing=miss), detail=detail)
+                     for sig in sigs]
             break
         if not recs and obs[2] is not None and obs[1] != obs[2]:
             recs.append(dict(signature="process-received-other-argv-than-handed-to-execute",
@@ -214,7 +222,8 @@ def char_labels(strs):
             if G.plain_char(ch):
                 continue
             lab.add({" ": "space", "\t": "tab", "'": "squote", '"': "dquote",
-                     "\\": "backslash"}.get(ch, "unicode" if ord(ch) > 127 else "meta"))
+                     "\\": "backslash"}.get(ch, "nonposix_whitespace" if ch in G.UWS_CHARS
+                                            else "unicode" if ord(ch) > 127 else "meta"))
     return lab
 
 
